@@ -1,7 +1,56 @@
 /-
-  Sipsp.Proofs.ParamSound — SOUNDNESS of ParseTokenParam (property C17, the converse of `Sipsp.Proofs.ParamSpec`):
-  whatever ParseTokenParam accepts (verdict OK / MoreValues / EOH) on a new object is a parameter of the grammar,
-  reported exactly as written.
+  Sipsp.Proofs.ParamSound — SOUNDNESS of ParseTokenParam and of the list wrappers ParseAllURIParams /
+  ParseAllURIHdrs (property C17; the converse of `Sipsp.Proofs.ParamSpec`), for EVERY buffer within the 65,535-byte
+  limit, EVERY start offset and EVERY option word (the end-of-input option `POptInputEndF` included), on a new
+  object / a list object in its reset state.
+
+  The description of what is accepted (all positions are offsets into the buffer; `Lws`, `Pad`, `PRun`, `Ending`,
+  `AfterSep`, `QBody`, `EndTail` are the predicates of `ParamSpec`):
+  * `PSParam b flags p o o' e p'` — after skipped empty items (`Pad`) and linear white space (`Lws`) either
+      - `empty`: the end of the header / input (`PSEnd`): `EOH`, the object is returned untouched, or
+      - `named`: a name `[n0, n1)` whose first byte is any allowed byte other than the separator and whose other
+        bytes are allowed bytes other than separator and terminator, followed by `PSAfterName`:
+  * `PSAfterName` — the parameter ends (`PSClose`), or `[LWS] =` and `PSValue`;
+  * `PSValue` — `[LWS]` and a token value + `PSClose`, a quoted value (opening quote, `QBody`) + `PSClose`, the
+    separator (EMPTY value recorded, then `AfterSep`), the terminator (EMPTY value recorded, `OK`), or the end of the
+    header / input (NO value recorded, `EOH`);
+  * `PSClose` — one of the `Ending`s of `ParamSpec` (separator + what follows it, terminator, end of header / input),
+    or with `POptTokSpTermF` linear white space + the first byte of a new token (`OK`, offset of the LAST white-space
+    byte), or with the same option a new token right after the closing quote (`OK`, offset of the token).
+  Each constructor states the offset, the verdict and the COMPLETE object reported (name, value, `all`, state).
+
+  Proved:
+  * `parseTokenParam_sound`   : `parseTokenParam b o {} flags = (o', e, p')` with `e` ∈ {OK, MoreValues, EOH}
+                                ⇒ `PSParam b flags {} o o' e p'`.
+  * `parseTokenParam_complete`: the converse (every `PSParam` is reported exactly as described); hence
+  * `tokparam_ok_iff`         : (call = (o', e, p') ∧ e accepting) ↔ `PSParam b flags {} o o' e p'`.
+  * `GParam.psParam`          : every `GParam` of `ParamSpec` is a `PSParam`;
+    `PSParam.ps_gparam_or_extra`: every `PSParam` is a `GParam` OR one of four documented shapes outside that grammar
+    (nothing parsed at the end of the header / input; a name whose first byte is the terminator — only when the
+    terminator is an allowed byte; the white-space terminator; `name =` before the terminator / end of header).
+    So the statement "accepted iff `GParam`" is FALSE for the model as it is; witnesses in the tests at the end.
+  * `tokparam_fields`         : an accepted call either parsed nothing (`EOH`, untouched object) or reports a
+    NON-EMPTY name inside the buffer at / after the start offset, all of whose bytes satisfy `tokAllowedChar`;
+    `all` starts at the name and covers it; no wrap-around flag; the value is empty, an unquoted non-empty run of
+    allowed bytes (none the separator / terminator) or a complete quoted string (`PSValDesc`).
+  * `tokparam_charset`        : the property's `charset` clause — no byte outside the documented set (`docAllowed`)
+    in the name, nor in the value outside quotes.
+  * `ps_skipQuoted_qbody`     : what `SkipQuoted` accepts is a `QBody` (converse of `skipQuoted_of_qbody`);
+    `ps_skipLWS_ok_lws`, `ps_skipLWS_eoh`, `ps_skipLWS_more`: what `skipLWS` skips is `Lws`, and where it stops.
+  * `parseAllURIParams_ok_iff`, `parseAllURIHdrs_ok_iff` (and the loop forms `ps_uriParamsLoop`, `ps_uriHdrsLoop`):
+    on a list object in its reset state (`Fresh`) the wrapper returns `OK` / `EOH` iff the text is a `PSList` (items
+    reported `MoreValues`, the last one `OK` / `EOH`); then offset and verdict are those of the list end, the count
+    is the number of items, and the list object is the fold of `push` over the items (URI parameters: each with the
+    type of its name) — so every stored element is the corresponding item.
+  * `PSList.ps_named_or_empty`: every item of an accepted list has a non-empty name, EXCEPT that an empty list
+    (only empty items / white space up to the end of the header or input) is reported as ONE phantom item with an
+    untouched object (N = 1, empty name), verdict `EOH`; this is the only place where it occurs.
+  * `PSParam.ps_more_range`, `PSParam.ps_more_char`: `MoreValues` moves the offset forward, to a byte inside the
+    buffer that can start a name.
+
+  NOT proved here: calls on objects that are not new (resumed calls: C02 / `ShiftParams`); which error verdict a
+  rejected text gets (only: a text that is not a `PSParam` is not accepted); list objects that are not in their
+  reset state.
 -/
 import Sipsp.Proofs.ParamSpec
 import Sipsp.Proofs.UriListsL
@@ -1789,8 +1838,8 @@ theorem PSList.ps_named_or_empty {b : Buf} {flags o o' : Nat} {e : Err} {tps : L
     (∀ tp ∈ tps, 0 < tp.name.len) ∨
     (tps = [{}] ∧ e = .eoh ∧ ∃ t q n crl, Pad b (tpSep flags) o t ∧ Lws b t q ∧ PSEnd b flags q n crl ∧
       o' = n + crl) := by
-  cases H with
-  | last o2 e2 tp hg he =>
+  induction H with
+  | last o o' e tp hg he =>
     rcases hg.ps_named_or_empty with h | ⟨h1, h2, h3⟩
     · left
       intro tp' hmem
@@ -1799,7 +1848,7 @@ theorem PSList.ps_named_or_empty {b : Buf} {flags o o' : Nat} {e : Err} {tps : L
     · right
       subst h1
       exact ⟨rfl, h2, h3⟩
-  | cons next tp rest o2 e2 hg hrest =>
+  | cons o next tp rest o' e hg hrest _ =>
     left
     intro tp' hmem
     simp only [List.mem_cons] at hmem
@@ -1809,5 +1858,138 @@ theorem PSList.ps_named_or_empty {b : Buf} {flags o o' : Nat} {e : Err} {tps : L
       · exact h
       · cases h2
     · exact hrest.ps_named_at hg.ps_more_char tp' hmem
+
+/-! ### what is accepted beyond the grammar `GParam` of `ParamSpec` -/
+
+/-- **an accepted parameter is a `GParam` or one of four documented shapes outside that grammar**:
+    (a) nothing parsed: the empty item at the end of the header / input (`EOH`, untouched object);
+    (b) a name whose FIRST byte is the terminator — possible only when the terminator is an allowed byte, i.e. `?`
+        with `POptTokQmTermF` outside URI-parameter mode (at the start of a call the terminator is not special);
+    (c) the white-space terminator `POptTokSpTermF` ended the parameter (`OK`);
+    (d) `name =` followed by the terminator (empty value recorded there, `OK`) or by the end of the header / input
+        (no value recorded, `EOH`). -/
+theorem PSParam.ps_gparam_or_extra {b : Buf} {flags o o' : Nat} {e : Err} {p' : PTokParam}
+    (H : PSParam b flags {} o o' e p') :
+    GParam b flags o o' e p' ∨
+    (p' = {} ∧ e = .eoh) ∨
+    (tokAllowedChar (tpTerm flags) flags = true ∧ b[p'.name.offs]? = some (tpTerm flags) ∧ 0 < p'.name.len) ∨
+    (hasFlag flags POptTokSpTermF = true ∧ e = .ok) ∨
+    (p'.val.len = 0 ∧ (e = .ok ∨ e = .eoh) ∧ ∃ q, b[q]? = some 61 ∧ p'.name.offs + p'.name.len ≤ q ∧ q < o') := by
+  cases H with
+  | empty t q n crl hp hl hend => exact Or.inr (Or.inl ⟨rfl, rfl⟩)
+  | named t n0 n1 o2 c0 e2 p2 hp hl hb hal hs hrun hlt hA =>
+    by_cases hct : c0 = tpTerm flags
+    · subst hct
+      refine Or.inr (Or.inr (Or.inl ⟨hal, ?_, ?_⟩))
+      · rw [(hA.ps_fields hlt).1]; exact hb
+      · rw [(hA.ps_fields hlt).1]
+        show 0 < n1 - n0
+        omega
+    · have hrun' : PRun b flags n0 n1 := hrun.ps_cons hb ⟨hal, hs, hct⟩
+      cases hA with
+      | close o3 e3 st hC =>
+        cases hC with
+        | ending o4 e4 st4 hE => exact Or.inl (GParam.noValue o t n0 n1 o' e st hp hl hrun' hlt hE)
+        | spterm u c hsp _ _ _ _ => exact Or.inr (Or.inr (Or.inr (Or.inl ⟨hsp, rfl⟩)))
+        | sptermQ c hsp _ _ _ => exact Or.inr (Or.inr (Or.inr (Or.inl ⟨hsp, rfl⟩)))
+      | value q o3 e3 p3 hlq h61 hV =>
+        have hq := hlq.le
+        cases hV with
+        | token v0 v1 o4 e4 st hlv hrv hv hC =>
+          cases hC with
+          | ending o5 e5 st5 hE =>
+            exact Or.inl (GParam.token o t n0 n1 q v0 v1 o' e st hp hl hrun' hlt hlq h61 hlv hrv hv hE)
+          | spterm u c hsp _ _ _ _ => exact Or.inr (Or.inr (Or.inr (Or.inl ⟨hsp, rfl⟩)))
+          | sptermQ c hsp _ _ _ => exact Or.inr (Or.inr (Or.inr (Or.inl ⟨hsp, rfl⟩)))
+        | quoted v0 qe o4 e4 st hlv h34 hqb hC =>
+          cases hC with
+          | ending o5 e5 st5 hE =>
+            exact Or.inl (GParam.quoted o t n0 n1 q v0 qe o' e st hp hl hrun' hlt hlq h61 hlv h34 hqb hE)
+          | spterm u c hsp _ _ _ _ => exact Or.inr (Or.inr (Or.inr (Or.inl ⟨hsp, rfl⟩)))
+          | sptermQ c hsp _ _ _ => exact Or.inr (Or.inr (Or.inr (Or.inl ⟨hsp, rfl⟩)))
+        | emptySep s o4 e4 st hlv hs' hA' =>
+          exact Or.inl (GParam.emptyVal o t n0 n1 q s o' e st hp hl hrun' hlt hlq h61 hlv hs' hA')
+        | emptyTerm u hlv hu hne =>
+          have := hlv.le
+          refine Or.inr (Or.inr (Or.inr (Or.inr ⟨rfl, Or.inl rfl, q, h61, ?_, by omega⟩)))
+          show n0 + (n1 - n0) ≤ q
+          omega
+        | noValue q' n crl hlv hend =>
+          have := hlv.le
+          refine Or.inr (Or.inr (Or.inr (Or.inr ⟨rfl, Or.inr rfl, q, h61, ?_, ?_⟩)))
+          · show n0 + (n1 - n0) ≤ q
+            omega
+          · cases hend with
+            | eoh e6 c6 he _ _ => have := he.gt; omega
+            | inputEnd hf he => have := get?_lt h61; omega
+
+/-! ### tests on concrete inputs / the hypotheses are satisfiable -/
+
+/-- non-vacuity of `parseTokenParam_complete` / `tokparam_ok_iff` (right to left): `a;b` is a `PSParam` built by
+    hand, and the theorem gives the result of the call -/
+example : parseTokenParam "a;b".toUTF8.data 0 {} 0 =
+    (2, .moreValues, { name := ⟨0, 1⟩, all := ⟨0, 1⟩, state := .initNxtVal }) := by
+  refine parseTokenParam_complete (by decide) ?_
+  refine PSParam.named 0 0 0 1 2 97 .moreValues _ (Pad.nil 0) (Lws.nil 0) (by decide) (by decide) (by decide)
+    (fun k h1 h2 => by omega) (by decide) ?_
+  refine PSAfterName.close 1 2 .moreValues .initNxtVal (PSClose.ending _ _ _ _ ?_)
+  exact Ending.sep 1 1 2 .moreValues .initNxtVal (Lws.nil 1) (by decide)
+    (AfterSep.more 2 2 2 98 (Pad.nil 2) (Lws.nil 2) (by decide) (by decide) (by decide) (by decide))
+
+/-- test (evaluation of the model) / non-vacuity of `parseTokenParam_sound` and `tokparam_ok_iff` (left to right):
+    the result of a call on a text with empty items, folds, a quoted value with an escape and the terminator is a
+    `PSParam` -/
+example : PSParam ";; Tag \r\n = \"x\\\"y\" ?z".toUTF8.data 88 {} 0 19 .ok
+    { name := ⟨3, 3⟩, val := ⟨12, 6⟩, all := ⟨3, 15⟩, state := .fin } :=
+  (tokparam_ok_iff (by decide)).1 ⟨by decide +kernel, Or.inl rfl⟩
+
+/-- tests: the four shapes accepted outside the grammar `GParam` (see `PSParam.ps_gparam_or_extra`).
+    (a) nothing but a line end: `EOH`, untouched object -/
+example : parseTokenParam "\r\nX".toUTF8.data 0 {} 0 = (2, .eoh, {}) := by decide +kernel
+/-- (b) option word 2 = `POptTokQmTermF`: the leading `?` (the terminator) starts a name -/
+example : parseTokenParam "?a;b".toUTF8.data 0 {} 2 =
+    (3, .moreValues, { name := ⟨0, 2⟩, all := ⟨0, 2⟩, state := .initNxtVal }) := by decide +kernel
+/-- (c) option word 4 = `POptTokSpTermF`: a token after white space ends the parameter at the last white-space
+    byte; a token directly after a closing quote ends it at the token -/
+example : parseTokenParam "a=b c".toUTF8.data 0 {} 4 =
+    (3, .ok, { name := ⟨0, 1⟩, val := ⟨2, 1⟩, all := ⟨0, 3⟩, state := .fin }) := by decide +kernel
+example : parseTokenParam "a=\"b\"c".toUTF8.data 0 {} 4 =
+    (5, .ok, { name := ⟨0, 1⟩, val := ⟨2, 3⟩, all := ⟨0, 5⟩, state := .fin }) := by decide +kernel
+/-- (d) `name=` and the terminator: an empty value at the terminator; `name =` and the end of the header: no
+    value, and `all` does not include the `=` that follows white space -/
+example : parseTokenParam "a=?x".toUTF8.data 0 {} 2 =
+    (2, .ok, { name := ⟨0, 1⟩, val := ⟨2, 0⟩, all := ⟨0, 2⟩, state := .fin }) := by decide +kernel
+example : parseTokenParam "a =\r\nX".toUTF8.data 0 {} 0 =
+    (5, .eoh, { name := ⟨0, 1⟩, all := ⟨0, 1⟩, state := .fin }) := by decide +kernel
+
+/-- test: the phantom parameter of the empty list (`PSList.ps_named_or_empty`): option word 72 = URI-parameter
+    mode + end-of-input option, empty input: ONE value is counted, verdict `EOH` -/
+example : (parseAllURIParams "".toUTF8.data 0 { params := Array.replicate 4 {} } 72).2.1 = 1 ∧
+    (parseAllURIParams "".toUTF8.data 0 { params := Array.replicate 4 {} } 72).2.2.1 = .eoh := by decide +kernel
+
+/-- non-vacuity of `parseAllURIParams_ok_iff` (left to right): the accepted text `a=b;lr` is a `PSList` -/
+example : ∃ tps, PSList "a=b;lr".toUTF8.data (72 ||| POptParamSemiSepF) 0 tps 6 .eoh ∧ tps.length = 2 := by
+  have hfresh : ({ params := Array.replicate 4 {} } : URIParamsLst).Fresh := by
+    refine ⟨fun i x _ hx => ?_, rfl⟩
+    rw [Array.getElem?_replicate] at hx
+    split at hx
+    · cases hx; rfl
+    · cases hx
+  rcases hr : parseAllURIParams "a=b;lr".toUTF8.data 0 { params := Array.replicate 4 {} } 72 with ⟨o', n, e, r⟩
+  have h1 : o' = 6 := by
+    have : (parseAllURIParams "a=b;lr".toUTF8.data 0 { params := Array.replicate 4 {} } 72).1 = 6 := by
+      decide +kernel
+    rw [hr] at this; exact this
+  have h2 : n = 2 := by
+    have : (parseAllURIParams "a=b;lr".toUTF8.data 0 { params := Array.replicate 4 {} } 72).2.1 = 2 := by
+      decide +kernel
+    rw [hr] at this; exact this
+  have h3 : e = .eoh := by
+    have : (parseAllURIParams "a=b;lr".toUTF8.data 0 { params := Array.replicate 4 {} } 72).2.2.1 = .eoh := by
+      decide +kernel
+    rw [hr] at this; exact this
+  subst h1 h2 h3
+  obtain ⟨tps, hL, hn, _⟩ := (parseAllURIParams_ok_iff (by decide) _ hfresh).1 ⟨hr, Or.inr rfl⟩
+  exact ⟨tps, hL, hn.symm⟩
 
 end Sipsp
